@@ -22,7 +22,8 @@ Theorem C14_fieldid_get_build_last :
 Proof. exact @fid_get_build_last. Qed.
 Print Assumptions C14_fieldid_get_build_last.
 
-(* the hypothesis on the sign is needed: a negative id makes FieldIDMap.Set index out of range (finding 1405) *)
+(* the hypothesis on the sign is needed for Set: a negative id makes FieldIDMap.Set index out of range (finding 1405; since fix
+   cc65c3e the IDL front end rejects such a field with an error before it reaches Set, and Get of a negative id returns nil) *)
 Example C14_fieldid_negative_refuted : fid_build [(1, 10); (-1, 20)] = None.
 Proof. vm_compute. reflexivity. Qed.
 
@@ -54,17 +55,26 @@ Example C14_trie_bucket_collision :
   let t := trie_build [0] [([0], 1); ([255], 2)] in trie_get t [0] = Some 1 /\ trie_get t [255] = Some 2 /\ trie_get t [254] = None.
 Proof. vm_compute. repeat split; reflexivity. Qed.
 
-(* native twin (native/map.c trie_get): agrees with the Go code whenever it stays inside the index array ... *)
+(* native twin (native/map.c trie_get, `if (j > fs.len) return NULL`): agrees with the Go code whenever it answers ... *)
 Theorem C14_trie_native_agrees :
   forall (V : Type) (ps : list Z) (k : key) (n : tnode V) r, tn_get_native ps k n = Some r -> r = tn_get ps k n.
 Proof. exact @tn_get_native_agrees. Qed.
 Print Assumptions C14_trie_native_agrees.
 
-(* ... but `j > fs.len` lets bucket == len through: struct { 1: i32 x2 }, probe "x3" reads one TrieNode past the index (finding 1403) *)
-Example C14_trie_native_oob_refuted :
+(* ... and since TrieTree.Set keeps a spare zeroed node behind every index slice (fix 0d2d3ac) it always answers on the
+   one-position tries that FieldNameMap.Build constructs: the read at bucket == len lands on the spare node *)
+Theorem C14_trie_native_total :
+  forall (V : Type) p (k : key) (n : tnode V), tn_index n <> [] -> tn_get_native [p] k n = Some (tn_get [p] k n).
+Proof. exact @tn_get_native_total_one. Qed.
+Print Assumptions C14_trie_native_total.
+
+(* before the fix the same probe left the index array: struct { 1: i32 x2 }, probe "x3" (finding 1403, kept as a regression
+   recogniser); with the spare node it is simply not found *)
+Example C14_trie_native_boundary :
   let t := trie_build [1] [([120; 50], 1)] in
-  tn_get_native (t_positions t) [120; 51] (t_root t) = None /\ trie_get t [120; 51] = None.
-Proof. vm_compute. split; reflexivity. Qed.
+  tn_get_native_nospare (t_positions t) [120; 51] (t_root t) = None /\
+  tn_get_native (t_positions t) [120; 51] (t_root t) = Some None /\ trie_get t [120; 51] = None.
+Proof. vm_compute. repeat split; reflexivity. Qed.
 
 (* ---------------------------------------------------------------- lookup by key: HashMap (internal/caching/map.go) *)
 
@@ -77,7 +87,8 @@ Theorem C14_hashmap_get_build :
 Proof. exact @hm_get_build. Qed.
 Print Assumptions C14_hashmap_get_build.
 
-(* the hash-0 hypothesis is needed: "ab7czbso" has DJBHash32 = 0, its slot keeps looking empty and Get never finds it (finding 1401) *)
+(* the hash-0 hypothesis is needed for the building block: "ab7czbso" has DJBHash32 = 0, its slot keeps looking empty and Get never
+   finds it (finding 1401; since fix bd82c3d FieldNameMap.Build never hands such a key to the hash map, see C14_build_hash_only_safe) *)
 Example C14_hashmap_zero_hash_refuted :
   let k0 := [97; 98; 55; 99; 122; 98; 115; 111] in
   djb k0 = 0 /\ hm_get (hm_build 4 [(k0, 7)]) k0 = Some None /\ assoc k0 [(k0, 7)] = Some 7 /\
@@ -96,7 +107,8 @@ Proof.
   vm_compute. split; reflexivity.
 Qed.
 
-(* native twin: bytes >= 0x80 are sign-extended by hash_DJB32, so the probe starts from another hash (finding 1402) *)
+(* native twin of the building block: bytes >= 0x80 are sign-extended by hash_DJB32, so the probe starts from another hash
+   (finding 1402; since fix bd82c3d non-ASCII keys never reach the hash map) *)
 Example C14_hashmap_native_refuted :
   let k := [97; 195; 169] in
   djb_native k <> djb k /\ hm_get (hm_build 4 [(k, 5)]) k = Some (Some 5) /\ hm_get_native (hm_build 4 [(k, 5)]) k = Some None.
@@ -104,20 +116,45 @@ Proof. vm_compute. repeat split; try reflexivity. discriminate. Qed.
 
 (* ---------------------------------------------------------------- FieldNameMap.Build: whichever structure is chosen *)
 
+(* since fix bd82c3d there is NO hypothesis on the keys: hash-0 and non-ASCII keys are kept out of the hash map *)
 Theorem C14_build_either_way :
   forall (V : Type) (kvs : list (key * V)) (k : key),
-  (fnm_uses_hash (fnm_of_list kvs) = true -> forall k0, In k0 (map fst kvs) -> djb k0 <> 0) ->
   fnm_get (fnm_build (fnm_of_list kvs)) k = Some (assoc k (rev kvs)).
 Proof. exact @fnm_get_of_list. Qed.
 Print Assumptions C14_build_either_way.
 
 Theorem C14_build_either_way_nodup :
   forall (V : Type) (m : fnmap V) (k : key),
-  fn_impl m = FNone -> NoDup (map fst (fn_all m)) ->
-  (fnm_uses_hash m = true -> forall k0, In k0 (map fst (fn_all m)) -> djb k0 <> 0) ->
+  fn_impl m = FNone -> NoDup (map fst (fn_all m)) -> fnm_wf m ->
   fnm_get (fnm_build m) k = Some (assoc k (fn_all m)).
 Proof. exact @fnm_get_build. Qed.
 Print Assumptions C14_build_either_way_nodup.
+
+(* whenever Build uses the hash map, every key is one the hash map and its native twin can hold: ASCII bytes, DJB hash <> 0 *)
+Theorem C14_build_hash_only_safe :
+  forall (V : Type) (m : fnmap V),
+  fnm_wf m -> fnm_uses_hash m = true -> forall k0, In k0 (map fst (fn_all m)) -> hash_map_safe k0 = true.
+Proof. exact @fnm_hash_only_safe. Qed.
+Print Assumptions C14_build_hash_only_safe.
+
+(* the code before the fix needed the hypothesis that no key hashes to 0 (kept: regression recogniser of finding 1401) *)
+Theorem C14_build_either_way_prefix :
+  forall (V : Type) (kvs : list (key * V)) (k : key),
+  (forall k0, In k0 (map fst kvs) -> djb k0 <> 0) ->
+  fnm_get (fnm_build_prefix (fnm_of_list kvs)) k = Some (assoc k (rev kvs)).
+Proof. exact @fnm_get_of_list_prefix. Qed.
+Print Assumptions C14_build_either_way_prefix.
+
+(* 20 keys over a two-letter alphabet plus the hash-zero key "ab7czbso...": the old Build lost the key on the hash path,
+   the repaired Build takes the trie and finds it *)
+Example C14_build_zero_hash_key :
+  let ab := fun n : Z => [97 + n mod 2; 97 + (n / 2) mod 2; 97 + (n / 4) mod 2; 97 + (n / 8) mod 2; 97 + (n / 16) mod 2; 97; 97; 97] in
+  let k0 := [97; 98; 55; 99; 122; 98; 115; 111] in
+  let kvs := (k0, 99) :: map (fun n => (ab n, n)) (seqZ 0 32) ++ map (fun n => (ab n ++ [98], n)) (seqZ 0 32) in
+  djb k0 = 0 /\
+  fst (fnm_kind (fnm_build_prefix (fnm_of_list kvs))) = 2 /\ fnm_get (fnm_build_prefix (fnm_of_list kvs)) k0 = Some None /\
+  fst (fnm_kind (fnm_build (fnm_of_list kvs))) = 1 /\ fnm_get (fnm_build (fnm_of_list kvs)) k0 = Some (Some 99).
+Proof. vm_compute. repeat split; reflexivity. Qed.
 
 (* both paths are taken: dispersed keys go to the trie, 20 keys over a two-letter alphabet go to the hash *)
 Example C14_build_paths :
@@ -188,9 +225,7 @@ Print Assumptions C14_field_by_id_iff.
 
 (* ... and the structures that the Go code builds for the struct compute exactly these functions, for every key / id *)
 Theorem C14_struct_lookup_by_key :
-  forall d k,
-  (fnm_uses_hash (fnm_of_list (struct_keys d)) = true -> forall k0, In k0 (map fst (struct_keys d)) -> djb k0 <> 0) ->
-  fnm_get (fnm_build (fnm_of_list (struct_keys d))) k = Some (field_by_key d k).
+  forall d k, fnm_get (fnm_build (fnm_of_list (struct_keys d))) k = Some (field_by_key d k).
 Proof. exact struct_lookup_by_key. Qed.
 Print Assumptions C14_struct_lookup_by_key.
 
